@@ -256,7 +256,92 @@ def _run_scenario(sc, files):
     return {'violations': viol, 'steps': sh['steps'], 'calls': rec.n, 'aborted': aborted, 'reconf': reconf}
 
 
+_RCALLS, _RF = [], [None]
+
+
+def _rcost(x):
+    """module-level cost (pickled by reference): the restored solver calls THIS function, so its calls are counted in the
+    same log as the calls made before the restart"""
+    p = tuple(float(v) for v in x)
+    y = _RF[0](p)
+    _RCALLS.append((p, y))
+    return y
+
+
+def run_restart(sc):
+    """a solver stepped k times, saved, abandoned, loaded from the file and stepped m more times: the restored solver's
+    evaluation counter equals the number of calls over the whole life, its evaluation monitor holds exactly those calls
+    in order, generations / step monitor / callbacks continue where the saved run stopped"""
+    import mystic.solvers as ms
+    from mystic.monitors import Monitor
+    from mystic.termination import VTR
+    seed_all(sc['seed'])
+    del _RCALLS[:]
+    _RF[0] = COSTS[sc['cost']]
+    ndim, kind = sc['ndim'], sc['solver']
+    rng = random.Random(sc['seed'])
+    s = make_solver(kind, ndim)
+    if kind in ('DE1', 'DE2'):
+        s.SetRandomInitialPoints([-3.0] * ndim, [3.0] * ndim)
+    else:
+        s.SetInitialPoints([rng.uniform(-1.0, 2.0) for _ in range(ndim)])
+    s.SetTermination(VTR(-1e300))
+    s.SetEvaluationMonitor(Monitor())
+    s.SetObjective(_rcost)
+    fd, name = tempfile.mkstemp(prefix='rtc_c04_', suffix='.pkl', dir='/tmp')
+    os.close(fd)
+    viol = []
+    try:
+        with contextlib.redirect_stdout(io.StringIO()):
+            for _ in range(sc['before']):
+                s.Step()
+            if sc['how'] == 'frequency':
+                s.SetSaveFrequency(1, name)
+                s.Step()
+            else:
+                s.SaveSolver(name)
+            n_saved, g_saved = len(_RCALLS), s.generations
+            del s
+            t = ms.LoadSolver(name)
+            cbs = []
+            for _ in range(sc['after']):
+                t.Step(callback=lambda x: cbs.append(1))
+        if t.evaluations != len(_RCALLS):
+            viol.append(('evaluation-counter-equals-calls#after-restart', 'restored solver: evaluations=%r, %d calls before the '
+                         'restart + %d after' % (t.evaluations, n_saved, len(_RCALLS) - n_saved)))
+        m = t._evalmon
+        xs = [tuple(float(v) for v in x) for x in m._x]
+        ys = [_f(y) for y in m._y]
+        if xs != [c[0] for c in _RCALLS] or len(ys) != len(_RCALLS) or not all(_same(a, _f(c[1])) for a, c in zip(ys, _RCALLS)):
+            viol.append(('evaluation-monitor-equals-call-log#after-restart', 'restored solver: monitor has %d records, %d real calls'
+                         % (len(xs), len(_RCALLS))))
+        if t.generations != g_saved + sc['after']:
+            viol.append(('generations-equal-completed-iterations#after-restart', 'restored solver: generations=%r, %d saved + %d after'
+                         % (t.generations, g_saved, sc['after'])))
+        if len(cbs) != sc['after']:
+            viol.append(('callback-once-per-iteration#after-restart', '%d callbacks for %d steps' % (len(cbs), sc['after'])))
+        eh = [_f(e) for e in t.energy_history]
+        if eh and not _same(eh[-1], _f(t.bestEnergy)):
+            viol.append(('energy-history-ends-in-best-energy#after-restart', 'history[-1]=%r bestEnergy=%r' % (eh[-1], _f(t.bestEnergy))))
+    finally:
+        if os.path.exists(name):
+            os.remove(name)
+    return {'violations': viol, 'steps': sc['before'] + sc['after'], 'calls': len(_RCALLS), 'aborted': None, 'reconf': 1}
+
+
+def gen_restarts(seed, n):
+    rng = random.Random(seed)
+    return [dict(family='restart', solver=SOLVERS[k % 4], ndim=rng.choice([1, 2, 3]), cost=rng.choice(sorted(COSTS)),
+                 before=rng.choice([1, 2, 4]), after=rng.choice([1, 3, 5]), how=rng.choice(['SaveSolver', 'frequency']),
+                 seed=rng.randrange(10 ** 6)) for k in range(n)]
+
+
 def _work(sc):
+    if sc.get('family') == 'restart':
+        try:
+            return {'sc': sc, 'r': run_restart(sc)}
+        except Exception as e:      # noqa -- harness failure is not a violation
+            return {'sc': sc, 'r': {'violations': [], 'steps': 0, 'calls': 0, 'aborted': 'restart: %s %s' % (type(e).__name__, e), 'reconf': 0}}
     return {'sc': sc, 'r': run_scenario(sc)}
 
 
@@ -268,12 +353,19 @@ def run(tier='quick', seed=0):
                       'LoggingMonitor; initially empty; installed at setup or mid-run); all clauses evaluated after every '
                       'call against the Recorder log, a count of completed _Step invocations, per-iteration best '
                       'snapshots and the callback log; distinct = distinct (solver, termination, op-name sequence, '
-                      'monitor kinds) with >= 2 completed iterations and >= 1 reconfiguration',
+                      'monitor kinds) with >= 2 completed iterations and >= 1 reconfiguration; plus restarts: k steps, '
+                      'SaveSolver / SetSaveFrequency dump, LoadSolver, m more steps -- counter and evaluation monitor of the '
+                      'restored solver against the log of all calls of its (module-level) cost',
                  bound='%d sequences of <= 12 calls, dims 1-3, 4 solvers' % n)
-    for out in pmap(_work, gen_scenarios(seed * 1000003 + 4, n)):
+    for out in pmap(_work, gen_scenarios(seed * 1000003 + 4, n) + gen_restarts(seed * 7 + 11, 24 if tier == 'quick' else 400)):
         sc, r = out['sc'], out['r']
         if r['aborted']:
             res.extra.setdefault('aborted', []).append(r['aborted'][:160])
+        if sc.get('family') == 'restart':
+            res.case('restart|%s|%s|%d|%d' % (sc['solver'], sc['how'], sc['before'], sc['after']), nontrivial=r['steps'] >= 2, sample=sc)
+            for clause, detail in r['violations']:
+                res.violation('%s/%s/%s' % (P, sc['solver'], clause), detail, jsonable(sc))
+            continue
         key = (sc['solver'], sc['term'], sc['evalmon0'], sc['genmon0'], tuple('/'.join(map(str, o)) if o[0] in
                ('EvalMon', 'GenMon') else o[0] for o in sc['ops']))
         res.case(repr(key), nontrivial=r['steps'] >= 3 and r['reconf'] >= 1,
@@ -287,4 +379,6 @@ def run(tier='quick', seed=0):
 
 
 def replay(inp):
+    if inp.get('family') == 'restart':
+        return not run_restart(inp)['violations']
     return not run_scenario(inp)['violations']
